@@ -179,6 +179,14 @@ pub fn c06_programs() -> Vec<Arc<Prog>> {
         ),
         // delete + put in one batch
         p3("batch-del-put||snapread", pre.clone(), vec![vec![Batch(vec![(0, None), (2, Some(7))])], vec![SnapRead(vec![0, 2])]], big),
+        // deletes inside the batch, observed by an iterator that scans forwards and backwards
+        p3("batch-del-put||iterscan", pre.clone(), vec![vec![Batch(vec![(0, None), (2, Some(7))])], vec![IterScan]], big),
+        p3(
+            "batch-put-del-put||iterscan",
+            vec![Batch(vec![(0, Some(1)), (1, Some(2)), (2, Some(8))])],
+            vec![vec![Batch(vec![(0, Some(3)), (1, None), (2, Some(5))])], vec![IterScan]],
+            big,
+        ),
         // plain gets are single-key observations, but the pair must still be linearizable with the
         // batch as one atomic write (first key new, then second key old = not explainable)
         p3("batch2||get+get", pre.clone(), vec![vec![Batch(vec![(0, Some(3)), (1, Some(4))])], vec![Get(0), Get(1)]], big),
